@@ -80,6 +80,14 @@ pub fn enumerate<V: Full>(b: &Base, other_keys: &[Vec<u8>], full_key_flips: bool
         f.extend_from_slice(&ftb);
         out.push(same("ext-footer", format!("{x:02x} + footer"), join_token(&hdr, &body, Some(&f))));
     }
+    // F-ext (text): further dot-separated segments after the token ("a serialised token is `header.payload[.footer]`")
+    {
+        let with_footer = !ftb.is_empty();
+        let tails: &[&str] = if with_footer { &[".", ".AAAA", "..", "..AAAA", ". ", ".="] } else { &["..", "..AAAA", "...", ". .", "..="] };
+        for t in tails {
+            out.push(same("ext-text", format!("text {t:?} appended to the token string"), format!("{}{t}", b.token)));
+        }
+    }
     // F-shift: bytes moved across the message / footer / assertion boundaries
     let auth_len = if b.local { V::tag_len() } else { V::sig_len() };
     for j in 1..=2usize {
@@ -205,5 +213,45 @@ pub fn enumerate<V: Full>(b: &Base, other_keys: &[Vec<u8>], full_key_flips: bool
         }
     }
     let _ = (std::marker::PhantomData::<Local>, std::marker::PhantomData::<Public>);
+    out
+}
+
+/// Faults on the pieces of a token whose message / footer / assertion lengths are chosen by the caller (long pieces):
+/// for the footer and the assertion (and, for public tokens, the message): first, middle and last byte changed, and
+/// the whole piece replaced by other bytes of the same length.
+pub fn piece_faults<V: Full>(b: &Base) -> Vec<Fault> {
+    let mut out = Vec::new();
+    let (hdr, body, footer) = split_token(&b.token).expect("base token splits");
+    let ftb = footer.unwrap_or_default();
+    let variants = |v: &[u8]| -> Vec<(String, Vec<u8>)> {
+        let mut r = Vec::new();
+        if v.is_empty() {
+            return r;
+        }
+        let n = v.len();
+        for (what, pos, mask) in [("first byte", 0usize, 1u8), ("middle byte", n / 2, 0x10), ("last byte", n - 1, 0x80)] {
+            let mut x = v.to_vec();
+            x[pos] ^= mask;
+            r.push((format!("{what} changed"), x));
+        }
+        r.push(("replaced by other bytes of the same length".into(), v.iter().map(|b| b ^ 0x55).collect()));
+        r
+    };
+    for (l, f) in variants(&ftb) {
+        out.push(Fault { class: "piece-footer", label: format!("{}-byte footer: {l}", ftb.len()), token: join_token(&hdr, &body, Some(&f)), key: KeyAlt::Same, aad: b.aad.clone() });
+    }
+    if V::assertions() {
+        for (l, a) in variants(&b.aad) {
+            out.push(Fault { class: "piece-assertion", label: format!("{}-byte assertion: {l}", b.aad.len()), token: b.token.clone(), key: KeyAlt::Same, aad: a });
+        }
+    }
+    if !b.local && body.len() >= V::sig_len() {
+        let cut = body.len() - V::sig_len();
+        for (l, m) in variants(&body[..cut]) {
+            let mut nb = m;
+            nb.extend_from_slice(&body[cut..]);
+            out.push(Fault { class: "piece-message", label: format!("{cut}-byte message: {l}"), token: join_token(&hdr, &nb, if ftb.is_empty() { None } else { Some(&ftb) }), key: KeyAlt::Same, aad: b.aad.clone() });
+        }
+    }
     out
 }
